@@ -99,8 +99,10 @@ class Default(TMGRStagingOutputComponent):
             try:
                 self._handle_task(task, actionables)
                 self.advance(task, publish=True, push=True)
-            except:
+            except Exception as e:
                 self._log.exception("staging error")
+                task['exception']        = repr(e)
+                task['exception_detail'] = '\n'.join(ru.get_exception_trace())
                 self.advance(task, rps.FAILED, publish=True, push=False)
 
 
